@@ -88,7 +88,7 @@ def c02(run, vc):
     run.extra_cov["accepted_related_tuples"] = len(acc_related)
     _sample(run, vecs)
     run.samples.append(acc_related[0])
-    s = vc.replay(vecs, "c02", tables, profiles=_profiles(tier, [5], [1, 5, 32, 129]))
+    s = vc.replay(vecs, "c02", tables, profiles=_profiles(tier, [5], [5, 129]), timeout=3000 if tier == "quick" else 14000)
     run.add_replay(s, "every Verify transition (honest, tampered, related-valid) on the real verifier and the independent CoreVerify", vecs, _nontrivial_signet)
     _trace_signet(run, vc, tables, "c02", 600 if tier == "quick" else 6000)
     return run.finish(rule="vectors = every Verify transition of the SigNet model: (signature base x <=Depth adversary derivations {Neg, AddGen, Scale, Relabel, Identity, AddSig}) x (public-key recipes incl. Neg/AddGen/AddKey/Identity) x (message); non-trivial = not the honest tuple; derived = independent CoreVerify decision, re-randomised projective representation, all bit flips / truncations / extension of the message for honest tuples",
@@ -351,6 +351,14 @@ def c16(run, vc):
     vecs, tables = _codec(run, vc, lambda v: v["act"] == "Codec" and v["mut"]["kind"] != "none", "structure-aware mutations of every field of every type in all three decoders; share containers judged at use")
     if vecs is not None:
         _fuzz_trace(run, vc, tables, 300 if run.tier == "quick" else 3000)
+        # the lazily validated share containers inside share *lists*: an undecodable payload at any position of a
+        # recombination (also next to a valid share with the same identifier) is an error, never skipped
+        bad = lambda v: any(not e.get("ok", True) for e in v.get("entries", []))
+        _multi_stage(run, vc, tables, [
+            ("MC_Threshold", "MC_Threshold_%s.cfg" % run.tier, lambda v: v["act"] == "Combine" and bad(v), "share lists with one undecodable payload at every position (public-key and signature shares)"),
+            ("MC_SignCrypt", "MC_SignCrypt_%s.cfg" % run.tier, lambda v: v["act"] == "DecryptShares" and bad(v), "decryption-share lists with one undecodable payload"),
+            ("MC_ElGamal", "MC_ElGamal_%s.cfg" % run.tier, lambda v: v["act"] == "EGShares" and bad(v), "ElGamal decryption-share lists with one undecodable payload"),
+        ])
     return run.finish(rule="vectors = every (type, codec, mutation) of the Codec model: truncation at every field boundary (+-1) and at every length, extension, every point field replaced by {off-subgroup, valid+torsion, x without point, x >= p, cleared compression flag, infinity flag, identity}, every scalar field by {0, 1, r-1, r, r+5, 2^256-1, 0x80}, every tag byte, share ids {0, 255}, length prefixes {+1, huge, overlong}, JSON hex leaves {non-hex, odd, short, long, empty, upper}; decoded values are fed to every consumer; trace = random / bit-flipped / byte-replaced / truncated / extended / spliced inputs to every decoder, judged by an independent point classifier and validated by TLC per (type, codec, class, outcome)",
                       assumptions=["invalid point encodings constructed with bls12_381_plus unchecked decompression", "field layout in spec/Layout.tla"])
 
